@@ -153,10 +153,20 @@ def gen_faults(rng, opkind, enabled, rate):
 
 
 def generate(run_seed, fault_config="all", jit=False, budget=4.0, max_pto=2, allow_n3lo=False,
-             max_ops=12, n3lo=False, meta=None):
+             max_ops=12, n3lo=False, big=False, meta=None):
     st = Streams(run_seed)
     cfg, ops_rng, frng = st["config"], st["ops"], st["faults"]
-    th, ob = cards.gen_settings(cfg, max_pto=max_pto, allow_n3lo=allow_n3lo)
+    th, ob = cards.gen_settings(cfg, max_pto=1 if big else max_pto, allow_n3lo=allow_n3lo)
+    if big:
+        # "big" runs: many points per observable (ties and duplicates in Q2 that are not adjacent as
+        # listed, many distinct cache entries) at leading order, where a point costs milliseconds —
+        # the classic blind spot is a cache too large for its eviction path to run
+        if th["PTO"] == 1 and cfg.random() < 0.7:
+            th["PTO"] = 0
+        th.pop("PTODIS", None)
+        if th["FNS"] not in ("ZM-VFNS", "FFNS"):
+            th["FNS"] = cfg.choice(["ZM-VFNS", "FFNS"])
+        th["TMC"] = cards.wchoice(cfg, [(0, 3), (1, 3), (2, 2), (3, 2)])
     if n3lo:
         # heavy-quark N3LO: the only path through the process-global grid memo
         # (heavy.n3lo.interpolators, keyed by coefficient, nf and variation); DESIGN §2.5
@@ -207,6 +217,23 @@ def generate(run_seed, fault_config="all", jit=False, budget=4.0, max_pto=2, all
         base.append([name, pts])
         if spent > budget * 0.6:
             break
+    if big:
+        pools = cards.gen_pools(cfg, th, ob, nx=8, nq=5)
+        grid = ob["interpolation_xgrid"]
+        pools["x"] = list(dict.fromkeys(pools["x"] + [g for g in grid[1:-1]] + [0.21, 0.33, 0.52, 0.66, 0.81]))
+        pools["x"] = [x for x in pools["x"] if x >= grid[0]][:14]
+        base = []
+        bnames = [n for n in cards.gen_obs_names(cfg, th, ob, 4, wild=0.0)
+                  if n.split("_")[0] in ("F2", "FL", "F3") or cards.is_xs(n)][: cfg.randint(1, 2)] or ["F2_light"]
+        for name in bnames:
+            npts = cfg.randint(9, 26 if not cards.is_xs(name) else 12)
+            if th["TMC"] in (1, 3) and th["PTO"] == 1:
+                npts = min(npts, 10)
+            pts = cards.gen_points(cfg, pools, name, npts, th)
+            # non-adjacent repeats of whole points and of Q2 values
+            for _ in range(cfg.randint(1, 4)):
+                pts.insert(cfg.randrange(len(pts) + 1), copy.deepcopy(cfg.choice(pts)))
+            base.append([name, pts])
     settings = {"S0": {"theory": th, "obs": ob}}
     runners = {"R0": ("S0", base)}
     if cfg.random() < 0.65:
@@ -250,7 +277,7 @@ def generate(run_seed, fault_config="all", jit=False, budget=4.0, max_pto=2, all
     runs_done = {}  # runner -> number of full computations so far
     pending = list(runners.keys())
     cost = 0.0
-    hist_budget = budget
+    hist_budget = budget * (6.0 if big else 1.0)
     refc = sum(_ref_cost(settings[s]["theory"], settings[s]["obs"], l, jit) for s, l in runners.values())
     steps = 0
     while len(ops) < max_ops and steps < 60:
